@@ -67,7 +67,19 @@ func (cr *caseRun) collectDeliveries() {
 	sort.Ints(ks)
 	for _, k := range ks {
 		sc := cr.clients[k]
-		for _, f := range sc.c.newMsgs() {
+		fs := sc.c.newMsgs()
+		if len(fs) > 100 || cr.frames+len(fs) > 3000 {
+			// far more frames than any operation can cause: record the first few, stop the case
+			if len(fs) > 20 {
+				fs = fs[:20]
+			}
+			if !cr.flood {
+				cr.tag("delivery-flood")
+			}
+			cr.flood = true
+		}
+		cr.frames += len(fs)
+		for _, f := range fs {
 			tg := tagOf(f.body)
 			sc.held[tg] = f.id
 			cr.known = append(cr.known, [2]string{strconv.Itoa(tg), f.id})
@@ -100,6 +112,9 @@ func (cr *caseRun) noteClosures() {
 }
 
 func (cr *caseRun) after() {
+	if cr.flood {
+		return
+	}
 	// give the server a moment to close connections it decided to close
 	cr.settle()
 	cr.noteClosures()
@@ -247,13 +262,19 @@ func (cr *caseRun) opCreateChan(t, c int) {
 }
 
 func (cr *caseRun) opConnect(short bool, buffered bool) *shClient {
-	cr.nextK++
-	k := cr.nextK
 	tmo := int64(longTimeoutMs)
 	if short {
 		tmo = shortTimeoutMs
 	} else if cr.r.Chance(30) {
 		tmo = xlongTimeoutMs
+	}
+	return cr.opConnectTmo(tmo, buffered)
+}
+
+func (cr *caseRun) opConnectTmo(tmo int64, buffered bool) *shClient {
+	cr.nextK++
+	k := cr.nextK
+	if tmo > longTimeoutMs {
 		cr.tag("consumer-msg-timeout-above-default")
 	}
 	id := map[string]interface{}{"client_id": fmt.Sprintf("k%d", k), "hostname": "h", "feature_negotiation": true,
